@@ -124,6 +124,18 @@ def _compare(name, spec, res):
             res["outside"].append(f"{name}: variant B rejected by FFCx ({e})")
             return
         raise
+    _compare_built(name, spec, res, form, A, B)
+
+
+def _compare_built(name, spec, res, form, A, B):
+    """Core of the comparison for one form whose two variants are already compiled/parsed
+    (A, B as returned by build_variant; possibly taken out of a module holding several objects)."""
+    tier = spec.get("tier", "quick")
+    va, vb = spec["A"], spec["B"]
+    mode = spec.get("mode", "ident")
+    rel = spec.get("rel", 1e-9)
+    floor_rel = spec.get("floor", FLOOR_STRICT)
+    amap = spec.get("map")
     fref = uflref.FormRef(form, A["scalar"])
     real_data = bool(spec.get("real_data"))
     cplx_a = A["scalar"].startswith("complex")
@@ -254,9 +266,11 @@ def _compare(name, spec, res):
                 if len(res["samples"]) < 2:
                     res["samples"].append({"case": label, "variantA": {k: v for k, v in va.items()}, "variantB": {k: v for k, v in vb.items()},
                                            "entries": len(pa), "max_monomials": max([p.nterms() for _, p in pa] + [0])})
-    res["queries"] = stats.q
-    res["solver_s"] = stats.secs
-    res["extra"]["text_hashes"] = [hashlib.sha256(A["text"].encode()).hexdigest()[:12], hashlib.sha256(B["text"].encode()).hexdigest()[:12]]
+    for k_, d_ in stats.q.items():
+        for v_, n_ in d_.items():
+            res["queries"].setdefault(k_, {})[v_] = res["queries"].get(k_, {}).get(v_, 0) + n_
+    res["solver_s"] += stats.secs
+    res["extra"].setdefault("text_hashes", []).extend([hashlib.sha256(A["text"].encode()).hexdigest()[:12], hashlib.sha256(B["text"].encode()).hexdigest()[:12]])
 
 
 def _concrete(V, kern, libs, tag, inp, env, nA, ents, perms):
